@@ -339,8 +339,8 @@ int _vnacal_new_add_common(vnacal_new_add_arguments_t vnaa)
     case VNACAL_T8:
     case VNACAL_TE10:
 	ptype = 'T';
-	min_b_rows    = s_ports;
-	min_b_columns = s_ports;
+	min_b_rows    = MIN(s_ports, full_m_rows);
+	min_b_columns = MIN(s_ports, full_m_columns);
 	break;
 
     case VNACAL_T16:
@@ -354,8 +354,8 @@ int _vnacal_new_add_common(vnacal_new_add_arguments_t vnaa)
     case VNACAL_UE14:
     case _VNACAL_E12_UE14:
 	ptype = 'U';
-	min_b_rows    = s_ports;
-	min_b_columns = s_ports;
+	min_b_rows    = MIN(s_ports, full_m_rows);
+	min_b_columns = MIN(s_ports, full_m_columns);
 	break;
 
     case VNACAL_U16:
